@@ -261,16 +261,22 @@ Definition i_type (t : tree) (rp : path) : option ntype := option_map t_type (i_
 Definition is_attr (ty : ntype) : bool :=
   match ty with AttributeNode => true | _ => false end.
 
-(* navigator.go:15-27 NodeType.  The trailing panic is unreachable: ntype has exactly the four
-   constructors of the switch. *)
-Definition i_nodetype (t : tree) (v : inav) : option xtype :=
-  match i_type t (in_cur v) with
-  | None => None
-  | Some DocumentNode => Some XRoot
-  | Some ElementNode => Some XElement
-  | Some TextNode => Some XText
-  | Some AttributeNode => Some XAttribute
+(* navigator.go:15-27 NodeType: the switch as a table (re-extracted from the source into
+   Gen/NavShape.v on every run; Proofs/Nav.v nodetype_table_extracted ties the two).  The trailing
+   panic is unreachable: ntype has exactly the four constructors of the switch. *)
+Definition i_xtype_of (ty : ntype) : xtype :=
+  match ty with
+  | DocumentNode => XRoot
+  | ElementNode => XElement
+  | TextNode => XText
+  | AttributeNode => XAttribute
   end.
+(* the iota values of xpath.NodeType (xpath.go:10-30) *)
+Definition xtype_code (x : xtype) : N :=
+  match x with XRoot => 0 | XElement => 1 | XAttribute => 2 | XText => 3 | XComment => 4 end%N.
+
+Definition i_nodetype (t : tree) (v : inav) : option xtype :=
+  option_map i_xtype_of (i_type t (in_cur v)).
 
 (* navigator.go:29-31 *)
 Definition i_localname (t : tree) (v : inav) : option bytes :=
@@ -525,6 +531,113 @@ Fixpoint ref_ok {R} (doc : dnode) (p : prog R) (regs : nat -> dnav) : Prop :=
       let '(v', b) := d_moveto (regs x) (regs y) in ref_ok doc (k b) (upd regs x v')
   end.
 
+(* ref_ok as a computation (Proofs/Nav.v ref_okb_spec); check_case evaluates it on every real run
+   of xmlquery as it is and, when it holds, demands what nav_programs_agree states: equal traces. *)
+Fixpoint ref_okb {R} (doc : dnode) (p : prog R) (regs : nat -> dnav) : bool :=
+  match p with
+  | Ret _ => true
+  | Obs x o k =>
+      negb (quirk_obs doc (regs x) o) &&
+      match d_obs false doc (regs x) o with
+      | Some v => ref_okb doc (k v) regs
+      | None => true
+      end
+  | Move x m k =>
+      negb (quirk_move (regs x) m) &&
+      match d_move false doc (regs x) m with
+      | Some (v', b) => ref_okb doc (k b) (upd regs x v')
+      | None => true
+      end
+  | Copy x y k => ref_okb doc k (upd regs y (regs x))
+  | MoveTo x y k =>
+      let '(v', b) := d_moveto (regs x) (regs y) in ref_okb doc (k b) (upd regs x v')
+  end.
+
+(* ---- the attribute axis as the engine walks it (query.go attributeQuery): Copy, then
+   MoveToNextAttribute until it refuses; what is seen at each stop ---------------------------- *)
+Fixpoint i_attr_walk (t : tree) (v : inav) (fuel : nat) : option (list (obs * obs * obs)) :=
+  match fuel with
+  | 0 => Some []
+  | S f =>
+      match i_move t v MNextAttr with
+      | None => None
+      | Some (_, false) => Some []
+      | Some (v', true) =>
+          match i_obs t v' OPrefix, i_obs t v' OLocalName, i_obs t v' OValue, i_attr_walk t v' f with
+          | Some p, Some l, Some x, Some r => Some ((p, l, x) :: r)
+          | _, _, _, _ => None
+          end
+      end
+  end.
+
+(* ==== idr/query.go: MatchAny / MatchAll / MatchSingle over the engine's iterator ================ *)
+(* The engine's *xpath.NodeIterator is abstract: a state and one step (iter.MoveNext() followed by
+   nodeFromIter(iter)); a step yields a node, ends, or panics inside the library (recovered by
+   the wrappers, query.go:58-62, 93-98, 119-124). *)
+Inductive istep (S N : Type) := INext (n : N) (s : S) | IEnd | IPanic.
+Arguments INext {S N}. Arguments IEnd {S N}. Arguments IPanic {S N}.
+
+Inductive werr := ECompile | ENoMatch | EMoreThanExpected | EQueryFailed.
+Inductive wres (A : Type) := WOk (a : A) | WErr (e : werr) | WOutOfFuel.
+Arguments WOk {A}. Arguments WErr {A}. Arguments WOutOfFuel {A}.
+
+Section Wrappers.
+  Variable S N : Type.
+  Variable next : S -> istep S N.
+
+  (* query.go:100-104: for iter.MoveNext() { ret = append(ret, nodeFromIter(iter)) } *)
+  Fixpoint match_all_loop (fuel : nat) (s : S) (acc : list N) : wres (list N) :=
+    match fuel with
+    | 0 => WOutOfFuel
+    | Datatypes.S f =>
+        match next s with
+        | INext n s' => match_all_loop f s' (n :: acc)
+        | IEnd => WOk (rev acc)
+        | IPanic => WErr EQueryFailed
+        end
+    end.
+
+  (* query.go:85-105 MatchAll.  is_dot: exprStr == "."; compiled: loadXPathExpr then QueryIter
+     (None = compilation error) *)
+  Definition match_all (is_dot : bool) (self : N) (compiled : option S) (fuel : nat) : wres (list N) :=
+    if is_dot then WOk [self]
+    else match compiled with
+         | None => WErr ECompile
+         | Some s => match_all_loop fuel s []
+         end.
+
+  (* query.go:110-135 MatchSingle *)
+  Definition match_single (is_dot : bool) (self : N) (compiled : option S) : wres N :=
+    if is_dot then WOk self
+    else match compiled with
+         | None => WErr ECompile
+         | Some s =>
+             match next s with
+             | IEnd => WErr ENoMatch
+             | IPanic => WErr EQueryFailed
+             | INext n s' =>
+                 match next s' with
+                 | INext _ _ => WErr EMoreThanExpected
+                 | IEnd => WOk n
+                 | IPanic => WErr EQueryFailed
+                 end
+             end
+         end.
+
+  (* query.go:57-64 MatchAny: a panic counts as "no result" *)
+  Definition match_any (s : S) : bool :=
+    match next s with INext _ _ => true | _ => false end.
+End Wrappers.
+Arguments match_all_loop {S N}. Arguments match_all {S N}. Arguments match_single {S N}.
+Arguments match_any {S N}.
+
+(* a scripted iterator: the nodes idr.QueryIter was seen to produce, and how it stopped *)
+Definition script_next (panics : bool) (s : list N) : istep (list N) N :=
+  match s with
+  | n :: r => INext n r
+  | [] => if panics then IPanic else IEnd
+  end.
+
 (* ==== correspondence cases ===================================================================== *)
 (* Straight-line operation sequences, as the harness issues them on both real navigators. *)
 Inductive op :=
@@ -584,9 +697,82 @@ Definition check_run (doc : dnode) (t : tree) (r : nrun) : bool :=
   && match run_idr t p (i_init (to_ipath doc start)) with
      | Some out => list_eqb res_eqb out (r_idr r)
      | None => false
-     end.
+     end
+  (* what the theorems state, on the real observations: equal traces whenever the run is in
+     scope of the reference as it is (ref_okb), and always against the repaired reference *)
+  && (if r_fx r then list_eqb res_eqb (r_dom r) (r_idr r)
+      else if ref_okb doc p (d_init start) then list_eqb res_eqb (r_dom r) (r_idr r) else true).
 
-Definition check_case (c : ncase) : bool :=
+(* all node positions of the document, root first *)
+Fixpoint d_paths (d : dnode) : list (list nat) :=
+  let 'D _ _ _ _ _ kids := d in
+  [] :: (fix go (i : nat) (ks : list dnode) : list (list nat) :=
+           match ks with
+           | [] => []
+           | k :: r => map (cons i) (d_paths k) ++ go (S i) r
+           end) 0 kids.
+
+Definition attr_obs (a : dattr) : obs * obs * obs :=
+  (VStr (da_prefix a), VStr (da_local a), VStr (da_value a)).
+Definition obs3_eqb (a b : obs * obs * obs) : bool :=
+  let '(a1, a2, a3) := a in let '(b1, b2, b3) := b in
+  obs_eqb a1 b1 && obs_eqb a2 b2 && obs_eqb a3 b3.
+
+(* the attribute axis, walked by the idr navigator over the OBSERVED tree from every node of the
+   document: the attributes xmlquery holds for that node, in its order (attr_walk_document_order) *)
+Definition check_attr_axis (doc : dnode) (t : tree) : bool :=
+  forallb (fun p =>
+    let rp := rev p in
+    match d_node doc rp with
+    | None => false
+    | Some n =>
+        opt_eqb (list_eqb obs3_eqb)
+          (i_attr_walk t (mkINav [] (to_ipath doc rp)) (S (length (d_attrs n))))
+          (Some (map attr_obs (d_attrs n)))
+    end) (d_paths doc).
+
+Definition check_ncase (c : ncase) : bool :=
   dom_wfb (c_doc c)
   && tree_eqb (to_idr (c_doc c)) (c_tree c)
+  && check_attr_axis (c_doc c) (c_tree c)
   && forallb (check_run (c_doc c) (c_tree c)) (c_runs c).
+
+(* One query through the string API: what idr.QueryIter produced (node numbers of this case, in
+   iteration order; did it stop by a panic), and what MatchAll / MatchSingle / MatchAny returned
+   for the same expression from the same node. *)
+Inductive wout (A : Type) := OOk (a : A) | ONoMatch | OMoreThanExpected | OOtherErr.
+Arguments OOk {A}. Arguments ONoMatch {A}. Arguments OMoreThanExpected {A}. Arguments OOtherErr {A}.
+
+Record wcase := mkW {
+  w_dot : bool;             (* the expression is "." *)
+  w_self : N;               (* the start node *)
+  w_compiles : bool;
+  w_iter : list N;
+  w_iter_panics : bool;
+  w_all : wout (list N);
+  w_single : wout N;
+  w_any : bool;
+}.
+
+Definition wres_wout {A} (eqb : A -> A -> bool) (m : wres A) (o : wout A) : bool :=
+  match m, o with
+  | WOk a, OOk b => eqb a b
+  | WErr ENoMatch, ONoMatch => true
+  | WErr EMoreThanExpected, OMoreThanExpected => true
+  | WErr ECompile, OOtherErr | WErr EQueryFailed, OOtherErr => true
+  | _, _ => false
+  end.
+
+Definition check_wcase (c : wcase) : bool :=
+  let nx := script_next (w_iter_panics c) in
+  let compiled := if w_compiles c then Some (w_iter c) else None in
+  wres_wout (list_eqb N.eqb) (match_all nx (w_dot c) (w_self c) compiled (S (length (w_iter c)))) (w_all c)
+  && wres_wout N.eqb (match_single nx (w_dot c) (w_self c) compiled) (w_single c)
+  && (if w_compiles c then Bool.eqb (match_any nx (w_iter c)) (w_any c) else true).
+
+Inductive c11case := NavCase (c : ncase) | WrapCases (cs : list wcase).
+Definition check_case (c : c11case) : bool :=
+  match c with
+  | NavCase c => check_ncase c
+  | WrapCases cs => forallb check_wcase cs
+  end.
